@@ -60,6 +60,17 @@ FAMILIES = [
     ({"main": "{% set a = 1 %}"}, "main", "template"),
     ({"main": "{{ undefined_thing.attr }}"}, "main", "template"),
 ]
+# (templates, main, entry, formatter, objects): the remaining ways bytes reach a writer
+WRITER_PATHS = [
+    ({"main": "a{{ n }}b{{ s }}{% set c %}{{ m }}{% endset %}{{ c }}{{ l }}"}, "main", "template", True, False),              # custom formatter writing through Output
+    ({"main.html": "<p>{{ h }}</p>{% for i in k %}{{ i }}{% endfor %}{{ h|safe }}"}, "main.html", "template", True, False),
+    ({"main": "x{{ obj }}y{{ [obj, 1] }}{% set c %}{{ obj }}{% endset %}{{ c }}"}, "main", "template", False, True),         # Object::render writing in pieces
+    ({"main.html": "{{ obj }}{{ obj|string }}{{ obj|upper }}"}, "main.html", "template", True, True),
+    ({"main": "head{% block q %}q{{ n }}{% for i in k %}{{ i }}{% endfor %}{% endblock %}tail"}, "main", "template+block:q", False, False),   # render_captured_to, then render_block_to_write on the returned state
+    ({"main": "{% extends 'base' %}{% block a %}[{{ super() }}|{{ n }}]{% endblock %}", "base": "head {% block a %}base-a{{ m }}{% endblock %} tail"}, "main", "template+block:a", False, False),
+    ({"main": "x{% block q %}{{ 1 // 0 }}{% endblock %}"}, "main", "block:q", False, False),
+    ({"main": "x{% block q %}ok{% endblock %}y{{ obj }}"}, "main", "template+block:nosuchblock", False, True),
+]
 FAMILY_CTX = {"n": 7, "m": -12, "s": "ab", "t": True, "l": [1, "x", [2]], "k": [1, 2, 3], "h": "<a href=\"x\">it's</a>&/",
               "d": {"k": "<v>", "z": 1}, "u": "naïve 中文 \U0001f600"}
 
@@ -80,6 +91,25 @@ def _map_bodies(st):
     for b in proggen._sub_bodies(st):
         st = proggen._replace_body(st, b, merge_raws(b))
     return st
+
+
+ERR_STMTS = [("emit", ("bin", "//", ("int", 1), ("int", 0))), ("emit", ("call", "nosuchfunction", [], [])),
+             ("set", "zerr", ("neg", ("str", "a"))), ("emit", ("filter", "abs", ("str", "x"), [])),
+             ("for", "zi", ("int", 3), None, [("raw", "x")], None, False)]
+
+
+def inject_error(rng, body, depth=0):
+    """a copy of the program with a statement that fails at run time somewhere inside it"""
+    body = list(body)
+    cands = [i for i, st in enumerate(body) if proggen._sub_bodies(st) and st[0] != "macro"]
+    if cands and depth < 3 and rng.chance(1, 2):
+        i = rng.choice(cands)
+        st = body[i]
+        b = rng.choice(proggen._sub_bodies(st))
+        body[i] = proggen._replace_body(st, b, inject_error(rng, b, depth + 1))
+        return body
+    body.insert(rng.below(len(body) + 1), rng.choice(ERR_STMTS))
+    return body
 
 
 def hexb(s):
@@ -130,15 +160,17 @@ def first_failure(script, W_total_calls=None):
 
 
 class Prog:
-    def __init__(self, templates, main, entry, ctx, undefined="lenient", ast=None, label=""):
+    def __init__(self, templates, main, entry, ctx, undefined="lenient", ast=None, label="", formatter=False, objects=False):
         self.templates, self.main, self.entry, self.ctx, self.undefined, self.ast, self.label = templates, main, entry, ctx, undefined, ast, label
+        self.formatter, self.objects = formatter, objects
 
     def req(self, sinks):
         return {"templates": self.templates, "main": self.main, "entry": self.entry, "ctx": self.ctx,
-                "undefined": self.undefined, "sinks": sinks}
+                "undefined": self.undefined, "formatter": self.formatter, "objects": self.objects, "sinks": sinks}
 
     def describe(self):
-        return {"templates": self.templates, "main": self.main, "entry": self.entry, "context": self.ctx, "undefined": self.undefined}
+        return {"templates": self.templates, "main": self.main, "entry": self.entry, "context": self.ctx, "undefined": self.undefined,
+                "formatter": self.formatter, "objects": self.objects}
 
 
 def run_c19(reqs, release=False):
@@ -153,6 +185,8 @@ def gen_programs(chk):
     for t, main, entry in FAMILIES:
         for ub in ("lenient", "strict"):
             progs.append(Prog(t, main, entry, FAMILY_CTX, ub, label="family"))
+    for t, main, entry, fm, ob in WRITER_PATHS:
+        progs.append(Prog(t, main, entry, FAMILY_CTX, "lenient", label="family", formatter=fm, objects=ob))
     n = 20000 if chk.thorough else 400
     for j in range(n):
         html = j % 2 == 1
@@ -162,6 +196,8 @@ def gen_programs(chk):
         if html:
             ctx["s"] = rng.choice(["<b>", "a&b", "it's \"q\"", "x/y", "plain"])
         body = g.template(kinds)
+        if j % 3 == 2:
+            body = inject_error(rng, body)
         name = "main.html" if html else "main"
         t = {name: proggen.body_src(body)}
         if inc:
@@ -244,7 +280,7 @@ def main():
         "the sink protocol: std::io::Write::write_all semantics are modelled in C19/Model.v (write_all) and compared call by call with what the instrumented sink observes",
         "the sink-driven run of a program is modelled as a function of the chunk list of its plain run (captured output never reaches the sink directly); for the core fragment the chunk list is the reference interpreter's"]
     chk.assumptions = ["the render context and templates are deterministic (two runs of the same program produce the same write sequence)",
-                       "programs whose plain render fails: the model covers the sink behaviour only (prefix, stop, error substitution), not the bytes produced before the render error"]
+                       "programs whose plain render fails: C19/Partial.v keeps the chunks written before the error (proved to agree with Lang/Interp.v); the engine's bytes-before-error and error code are compared with it for the generated core-fragment programs"]
     okm, blog = build_models("C19")
     proofs_ok = chk.run_proofs()
     okc, clog = cargo_build(["c19"], release=False)
@@ -260,7 +296,8 @@ def main():
     if chk.replay:
         rp = json.load(open(chk.replay))["replay"]
         p = rp["program"]
-        progs = [Prog(p["templates"], p["main"], p["entry"], p["context"], p.get("undefined", "lenient"), label="replay")]
+        progs = [Prog(p["templates"], p["main"], p["entry"], p["context"], p.get("undefined", "lenient"), label="replay",
+                      formatter=p.get("formatter", False), objects=p.get("objects", False))]
         replay_script = rp.get("script")
     else:
         progs = gen_programs(chk)
@@ -271,7 +308,7 @@ def main():
     model_mism = []
     bad = []                 # (prog index, script, profile, what, obs)
     samples = []
-    chunk_checked = chunk_refined = 0
+    chunk_checked = chunk_refined = failing_compared = failing_with_output = 0
     chunk_bad = []
     for rel in (False, True):
         prof = "release" if rel else "debug"
@@ -365,30 +402,37 @@ def main():
             # the interpreter's chunk list (core fragment, generated programs without includes)
             idx = [i for i, p in enumerate(progs) if p.ast is not None and infos[i] is not None]
             creqs = [langenc.request(merge_raws(progs[i].ast), progs[i].ctx, "lenient", progs[i].main.endswith(".html"))[0] for i in idx]
-            cm = run_model("C19", "c19-chunks", creqs)
+            cm = run_model("C19", "c19-partial", creqs)
             for i, m in zip(idx, cm):
                 info = infos[i]
-                if m[:1] == [0]:
-                    chunks, j = [], 2
-                    for _ in range(m[1]):
-                        chunks.append("".join(chr(c) for c in m[j + 1:j + 1 + m[j]]).encode()); j += 1 + m[j]
-                    chunk_checked += 1
-                    if info["result"] != "ok" or b"".join(chunks) != b"".join(info["W"]):
-                        chunk_bad.append((i, "interpreter chunks do not concatenate to the bytes the sink received"))
-                        continue
-                    cut, acc = set(), 0
-                    for w in info["W"]:
-                        acc += len(w); cut.add(acc)
-                    acc, fine = 0, True
-                    for ch in chunks:
-                        acc += len(ch)
-                        if acc not in cut and acc != 0:
-                            fine = False
-                    chunk_refined += fine
-                elif m[:1] == [1]:
-                    chunk_checked += 1
-                    if info["result"] != m[1]:
-                        chunk_bad.append((i, "interpreter error %s vs engine %s" % (m[1], info["result"])))
+                if m[:1] not in ([0], [1]):
+                    continue
+                j = 1 if m[0] == 0 else 2
+                chunks = []
+                n_ch = m[j]; j += 1
+                for _ in range(n_ch):
+                    chunks.append("".join(chr(c) for c in m[j + 1:j + 1 + m[j]]).encode()); j += 1 + m[j]
+                chunk_checked += 1
+                want = "ok" if m[0] == 0 else m[1]
+                if m[0] == 1:
+                    failing_compared += 1
+                    if chunks:
+                        failing_with_output += 1
+                if info["result"] != want:
+                    chunk_bad.append((i, "interpreter result %s vs engine %s" % (want, info["result"])))
+                    continue
+                if b"".join(chunks) != b"".join(info["W"]):
+                    chunk_bad.append((i, "the bytes the sink received before the %s differ from the interpreter's chunks" % ("end" if m[0] == 0 else "render error")))
+                    continue
+                cut, acc = set(), 0
+                for w in info["W"]:
+                    acc += len(w); cut.add(acc)
+                acc, fine = 0, True
+                for ch in chunks:
+                    acc += len(ch)
+                    if acc not in cut and acc != 0:
+                        fine = False
+                chunk_refined += fine
         else:
             kern_ok = True
 
@@ -404,6 +448,7 @@ def main():
     chk.cov["programs"] = len(progs)
     chk.cov["model_call_log_disagreements"] = len(model_mism)
     chk.cov["interpreter_chunk_lists"] = {"compared": chunk_checked, "disagreements": len(chunk_bad),
+                                          "failing_renders_compared": failing_compared, "failing_renders_with_output_before_the_error": failing_with_output,
                                           "every_chunk_boundary_is_a_write_boundary": chunk_refined}
     seen = set()
     for p, sc, prof, why, ob in bad:
